@@ -275,6 +275,13 @@ func runC09Reset(c *Ctx) {
 
 // storesFieldOnAllPaths: some store to field idx of the receiver sits in a block that dominates every return.
 func storesFieldOnAllPaths(f *ssa.Function, idx int) bool {
+	return storesFieldOnAllPathsDepth(f, idx, 0)
+}
+
+func storesFieldOnAllPathsDepth(f *ssa.Function, idx int, depth int) bool {
+	if depth > 3 || f.Blocks == nil || len(f.Params) == 0 {
+		return false
+	}
 	recv := f.Params[0]
 	var rets []*ssa.BasicBlock
 	for _, b := range f.Blocks {
@@ -286,13 +293,21 @@ func storesFieldOnAllPaths(f *ssa.Function, idx int) bool {
 	}
 	found := false
 	eachInstr(f, func(b *ssa.BasicBlock, _ int, in ssa.Instruction) {
-		st, ok := in.(*ssa.Store)
-		if !ok {
-			return
-		}
-		fa, ok := st.Addr.(*ssa.FieldAddr)
-		if !ok || fa.X != recv || fa.Field != idx {
-			return
+		if call, isCall := in.(*ssa.Call); isCall {
+			// a helper on the same receiver that stores the field on all of its paths
+			g := staticCallee(&call.Call)
+			if g == nil || !inModule(g) || len(call.Call.Args) == 0 || call.Call.Args[0] != ssa.Value(recv) || !storesFieldOnAllPathsDepth(g, idx, depth+1) {
+				return
+			}
+		} else {
+			st, ok := in.(*ssa.Store)
+			if !ok {
+				return
+			}
+			fa, ok := st.Addr.(*ssa.FieldAddr)
+			if !ok || fa.X != recv || fa.Field != idx {
+				return
+			}
 		}
 		all := true
 		for _, r := range rets {
